@@ -62,7 +62,7 @@ LEVEL_TEXT = (
     "freshly recorded node = exactly the recorded slots of child_jobs with their positions), dbMerkle_run_tree (induction over "
     "trees: when every job records provenance all ids are recomputable from the rows alone), job_row_after_start / "
     "job_row_after_finish / exec_root (Job.parent_id, call_hash, cached, Execution.job_id mirror the tree; collapsed and "
-    "cache-served jobs point to the node handed over), job_call_hash_recorded (the Job->CallNode foreign key), tags_attached / "
+    "cache-served jobs, with a value or with an error served by CSE, point to the node handed over), job_call_hash_recorded (the Job->CallNode foreign key), tags_attached / "
     "tags_only_intended, finish_idempotent_nodes (replays, duplicates), values_keyed. No _partial / _refuted theorem. "
     "Tie: the job tree observed on the real scheduler (Job objects, not rows) is replayed by the model driver and all "
     "CallNode/CallEdge/Job/Execution/Tag rows are compared after every execution with digests replaced by logged pre-images; the "
@@ -195,6 +195,12 @@ CORPUS = [
 
 
 # ------------------------------------------------------------------ running one history on the real code
+def is_hit(r):
+    """the job ended carrying a call hash handed over by the cache or by a CSE twin: a value in _resolve_job_main_thread,
+    or an error in _reject_job_main_thread (`job.was_cached and job.call_hash`: the error was served by CSE)"""
+    return bool(r.pre_call_hash) and (r.entered == "resolve" or (r.entered == "reject" and bool(r.was_cached)))
+
+
 class Names:
     """digest / uuid -> small index (first occurrence), per class of atom"""
 
@@ -267,7 +273,7 @@ class Audit:
         spec = None
         if r.task_name in ("gm.tA", "gm.tB", "gm.tS", "gm.tN", "gm.tT", "gm.tU") and r.eval_args:
             spec = r.eval_args[0][0]
-        body_evaluated = r.outcome == "ok" and not (r.entered == "resolve" and r.pre_call_hash)
+        body_evaluated = r.outcome == "ok" and not is_hit(r)
         if spec is not None and spec[0] == "tags" and body_evaluated:
             vt.append((self.vh(r.result), "vk", spec[1]))
             jt.append(("jk", spec[1]))
@@ -289,7 +295,7 @@ class Audit:
             self.stats["unfinished"] += 1
             kids = [self.tree(j, True, False) for j in own]
         else:
-            if r.entered == "resolve" and r.pre_call_hash:
+            if is_hit(r):
                 fin = "(hit %s)" % self.term_in(r.pre_call_hash)
                 self.stats["hits"] += 1
             else:
@@ -452,7 +458,7 @@ class Audit:
         for jid in [j for kind, j in w.events if kind == "F" and j in set(info["jobs"])]:
             r = w.jobs[jid]
             kid_hashes = [h for _, h in r.children if h]
-            hit = r.entered == "resolve" and r.pre_call_hash
+            hit = is_hit(r)
             if not r.prov:
                 if jid in jobs:
                     ctx.violation("C20-job-row-without-provenance", "a job that does not record provenance has a Job row", case,
@@ -473,6 +479,19 @@ class Audit:
                 ctx.violation("C20-node-fields", "CallNode task/args hash differ from the job's", case,
                               expected=(r.task_hash, r.args_hash), actual=(node.task_hash, node.args_hash))
             rh = self.result_hash(r)
+            if hit and r.outcome == "fail":
+                # an error served by CSE: the shared node holds the ErrorValue recorded by the job that raised it (its
+                # traceback, hence its hash, is that job's); it must be the same error
+                rh = node.value_hash
+                vrow = ses.get(Value, node.value_hash)
+                try:
+                    stored_val = self.registry.deserialize(vrow.type, self.backend._get_value_data(vrow)[0])
+                    same = type(stored_val).__name__ == "ErrorValue" and repr(stored_val.error) == repr(r.error)
+                except Exception:  # noqa: BLE001
+                    same = False
+                if not same:
+                    ctx.violation("C20-node-result", "the CallNode shared by a job whose error was served by CSE does not hold "
+                                  "that error", case, expected=repr(r.error), actual=node.value_hash)
             if node.value_hash != rh:
                 same_value = False
                 if hit and r.outcome == "ok" and plain(r.result):
@@ -605,7 +624,7 @@ class Audit:
         by_hash = {}
         for jid in w.finish_order:
             r = w.jobs[jid]
-            if r.call_hash and not (r.entered == "resolve" and r.pre_call_hash):
+            if r.call_hash and not is_hit(r):
                 by_hash.setdefault(r.call_hash, r)
         memo = {}
 
